@@ -82,3 +82,79 @@ def sel_out(rows: Seq[RecV], n: Int, has_where: Bool) -> Seq[RecV]:
     if has_where and not truthy(H_WHERE(rows[n - 1], n)):
         return sel_out(rows, n - 1, has_where)
     return sel_out(rows, n - 1, has_where) + [H_ELTS(rows[n - 1], n)]
+
+
+# ---------------------------------------------------------------- UNNEST
+@spec
+def is_unnest_marker(c: Cell) -> Bool:
+    return typeof(c, 'rbql_engine.compile_and_run.UNNEST')
+
+
+@spec
+def first_marker(fs: Seq[Cell], k: Int) -> Int:
+    # index of the first UNNEST marker at or after position k, or -1
+    if k < 0 or k >= len(fs):
+        return -1
+    if is_unnest_marker(fs[k]):
+        return k
+    return first_marker(fs, k + 1)
+
+
+@spec
+def unnest_rows(pre: Seq[Cell], post: Seq[Cell], vals: Seq[Cell], n: Int) -> Seq[RecV]:
+    # one output record per list element (none for an empty list): pre + [element] + post
+    if n <= 0:
+        return []
+    return unnest_rows(pre, post, vals, n - 1) + [pre + [vals[n - 1]] + post]
+
+
+# oracles of the UNNEST variant: [E1, UNNEST(LIST), E2]
+@spec(opaque=True)
+def H_E1(r: RecV, nr: Int) -> Cell:
+    raise NotImplementedError
+
+
+@spec(opaque=True)
+def H_E1_fail(r: RecV, nr: Int) -> Int:
+    raise NotImplementedError
+
+
+@spec(opaque=True)
+def H_E2(r: RecV, nr: Int) -> Cell:
+    raise NotImplementedError
+
+
+@spec(opaque=True)
+def H_E2_fail(r: RecV, nr: Int) -> Int:
+    raise NotImplementedError
+
+
+@spec(opaque=True)
+def H_UNNEST_LIST(r: RecV, nr: Int) -> Seq[Cell]:
+    raise NotImplementedError
+
+
+@spec(opaque=True)
+def H_UNNEST_LIST_fail(r: RecV, nr: Int) -> Int:
+    raise NotImplementedError
+
+
+@spec
+def urec_fail(r: RecV, nr: Int, has_sort: Bool) -> Bool:
+    if H_WHERE_fail(r, nr) != 0:
+        return True
+    if not truthy(H_WHERE(r, nr)):
+        return False
+    if H_E1_fail(r, nr) != 0 or H_UNNEST_LIST_fail(r, nr) != 0 or H_E2_fail(r, nr) != 0:
+        return True
+    return has_sort and H_SORTKEY_fail(r, nr) != 0
+
+
+@spec
+def usel_out(rows: Seq[RecV], n: Int) -> Seq[RecV]:
+    # SELECT e1, UNNEST(list), e2 WHERE p: per matching record one output record per list element
+    if n <= 0:
+        return []
+    if not truthy(H_WHERE(rows[n - 1], n)):
+        return usel_out(rows, n - 1)
+    return usel_out(rows, n - 1) + unnest_rows([H_E1(rows[n - 1], n)], [H_E2(rows[n - 1], n)], H_UNNEST_LIST(rows[n - 1], n), len(H_UNNEST_LIST(rows[n - 1], n)))
